@@ -243,7 +243,9 @@ fn ref_walk(r: lexpr::datum::Ref<'_>, data: &[u8], opts: lexpr::parse::Options, 
         }
         if line != p.line() { return None; }
         let o = start + p.column();
-        if o <= data.len() { Some(o) } else { None }
+        // the position must lie inside its own line (at most one past its last byte)
+        let line_end = data[start..].iter().position(|b| *b == b'\n').map_or(data.len(), |i| start + i);
+        if o <= line_end { Some(o) } else { None }
     };
     let sp = r.span();
     let (a, b) = match (offs(sp.start()), offs(sp.end())) {
@@ -366,7 +368,7 @@ pub fn numeric_oracle(text: &[u8], res: &str, fast: bool) -> Option<String> {
         let e0 = i;
         while i < b.len() && b[i].is_ascii_digit() { i += 1; }
         if i == e0 { return None; }
-        exp = body[e0..i].parse::<i64>().unwrap_or(i64::MAX / 4);
+        exp = body[e0..i].parse::<i64>().unwrap_or(i64::MAX / 4).min(1 << 40);
         if eneg { exp = -exp; }
     }
     if i != b.len() { return None; }
@@ -404,6 +406,12 @@ pub fn classify(tok: &str, r: &str) -> Option<String> {
             if tok == "x:y" { return Some(sym(tok)); }
             if kpost { kw(&tok[..tok.len() - 1]) } else { sym(tok) }
         }
+        "+.a:" | "-.foo:" | "+..:" | "-.:" | "-a:" | "+a:" | "...:" | "..a:" | ".a:" | "λ:" | "+:" | "-:" => if kpost { kw(&tok[..tok.len() - 1]) } else { sym(tok) },
+        "+.a" | ".a" | "λ" => sym(tok),
+        // a token is a number only if the whole token is one: a digit-initial token running into `#`
+        // is a symbol with leading-digit symbols and an error otherwise; never a number and a boolean
+        "1#t" => if d(r, 9) == 1 { sym(tok) } else { "ERR".into() },
+        "#x1F#t" => "ERR".into(),
         ":a" => if kpre { kw("a") } else { sym(":a") },
         "#:a" => if koct { kw("a") } else { return None },
         "#:a:" => if koct { kw("a:") } else { return None },
@@ -438,11 +446,24 @@ pub fn check(line: &str, res: &str) -> Vec<String> {
     let mut m: Vec<String> = Vec::new();
     if t.is_empty() { return m; }
     if res == "PANIC" { m.push("FAIL C03 harness-level panic".into()); return m; }
+    // C19, conversion clause: recorded while the operation itself ran (codec::err_item)
+    if let Some(k) = crate::codec::KIND_FAIL.lock().unwrap().take() {
+        m.push(format!("FAIL C19 conversion to std::io::Error: {}", k));
+    }
+    let m = check_inner(line, res, &t, m);
+    crate::codec::KIND_FAIL.lock().unwrap().take(); // re-executions inside the oracle do not count
+    m
+}
+
+fn check_inner(line: &str, res: &str, t: &[&str], mut m: Vec<String>) -> Vec<String> {
     match t[0] {
         "print" => {
             if res.starts_with("ok ") {
                 let f: Vec<&str> = res.split_whitespace().collect();
-                if f.len() >= 3 && f[2].contains('W') { m.push(format!("FAIL C07 bytes emitted through write instead of write_all: {}", f[2])); }
+                if f.len() >= 3 && f[2].contains('W') {
+                    m.push(format!("FAIL C07 bytes emitted through write instead of write_all: {}", f[2]));
+                    m.push(format!("FAIL C01 the io writer entry point emits bytes through write ({}): a conforming short-writing sink receives a text that does not read back", f[2]));
+                }
                 let bytes = unhex(f.get(1).copied().unwrap_or(""));
                 if std::str::from_utf8(&bytes).is_err() { m.push("FAIL C17 printed text is not valid UTF-8".into()); }
                 let mut it = t[2..].iter().copied();
@@ -520,7 +541,9 @@ pub fn check(line: &str, res: &str) -> Vec<String> {
                 if let Ok(text) = std::str::from_utf8(&data) {
                     if let Some(want) = classify(text, ro) {
                         let first = strip_dat(items[0]);
-                        if first.trim_end() != want || items.get(1) != Some(&"none") {
+                        if want == "ERR" {
+                            if !first.starts_with("err ") { m.push(format!("FAIL C08 token {:?} under options {} must be rejected but reads as {}", text, ro, res)); }
+                        } else if first.trim_end() != want || items.get(1) != Some(&"none") {
                             m.push(format!("FAIL C08 token {:?} under options {} must read as {} but reads as {}", text, ro, want, res));
                         }
                     }
@@ -584,7 +607,10 @@ pub fn check(line: &str, res: &str) -> Vec<String> {
                 let dres = crate::ops::exec(&dline);
                 let di: Vec<String> = dres.split(" | ").map(|s| strip_dat(s)).collect();
                 let vi: Vec<String> = items.iter().map(|s| s.to_string()).collect();
-                if di != vi { m.push(format!("FAIL C10 datum API disagrees with value API: {:?} vs {:?}", di, vi)); }
+                if di != vi {
+                    m.push(format!("FAIL C10 datum API disagrees with value API: {:?} vs {:?}", di, vi));
+                    if api.starts_with("r:v") { m.push("FAIL C12 next_datum loop disagrees with next_value loop on the same input".into()); }
+                }
                 if api.starts_with("r:v") {
                     for alt in ["r:i", "r:p"] {
                         let aline = line.replacen(" r:v", &format!(" {}", alt), 1);
@@ -624,6 +650,18 @@ pub fn check(line: &str, res: &str) -> Vec<String> {
                     let f: Vec<&str> = res.split_whitespace().collect();
                     let eof = f.len() >= 2 && f[1].starts_with("eof");
                     if !eof { m.push(format!("FAIL C19 proper prefix {:?} of parsable {:?} fails with a non-EOF error: {}", String::from_utf8_lossy(&data[..k]), String::from_utf8_lossy(&data), res)); }
+                }
+            }
+            // the same clause for the other sources (a streaming caller reads from an io::Read)
+            if k < data.len() && lexpr::from_slice_custom(&data, parse_opts(t[1])).is_ok() {
+                let mut srcs = vec!["i1", "I3", "i0"];
+                if std::str::from_utf8(&data[..k]).is_ok() { srcs.push("s"); }
+                for src in srcs {
+                    let r2 = crate::ops::exec(&format!("parse {} {} {} v1 {}", t[3], src, t[1], hex(&data[..k])));
+                    if r2.starts_with("err ") && !r2.starts_with("err eof") {
+                        m.push(format!("FAIL C19 proper prefix {:?} of parsable {:?} from source {} fails with a non-EOF error: {}", String::from_utf8_lossy(&data[..k]), String::from_utf8_lossy(&data), src, r2));
+                    }
+                    if strip_pos(&r2) != strip_pos(res) { m.push(format!("FAIL C06 prefix result differs between slice and source {}: {} vs {}", src, res, r2)); }
                 }
             }
         }
